@@ -148,7 +148,11 @@ func (c *Ctx) ExternalCalls() []ExtCall {
 		if s.Callee == "" || isModuleCallee(s.Callee) {
 			continue
 		}
-		out = append(out, ExtCall{Site: s, Callee: s.Callee, Class: classify(s.Callee)})
+		class := classify(s.Callee)
+		if c.isStdStreamWrite(s) {
+			class = effOut // os.Stdout.Write / os.Stderr.WriteString: a print, not a file mutation
+		}
+		out = append(out, ExtCall{Site: s, Callee: s.Callee, Class: class})
 	}
 	sort.SliceStable(out, func(i, j int) bool {
 		if out[i].Callee != out[j].Callee {
@@ -157,6 +161,45 @@ func (c *Ctx) ExternalCalls() []ExtCall {
 		return FnKey(out[i].Site.Fn) < FnKey(out[j].Site.Fn)
 	})
 	return out
+}
+
+// isStdStreamWrite: (*os.File).Write / WriteString whose receiver is os.Stdout or os.Stderr.
+func (c *Ctx) isStdStreamWrite(s Site) bool {
+	if s.Callee != "(*os.File).Write" && s.Callee != "(*os.File).WriteString" {
+		return false
+	}
+	recv := c.O.Of(s.Args()[0])
+	return recv.Is("global", "os.Stdout") || recv.Is("global", "os.Stderr")
+}
+
+// stdoutPrint recognises a print of bytes on stdout: fmt.Print(string(X)), fmt.Println(string(X)) (adds a newline: not
+// exact), os.Stdout.Write(X), os.Stdout.WriteString(string(X)). It returns the term of X.
+func (c *Ctx) stdoutPrint(s Site) (val *core.Term, exact, ok bool) {
+	switch s.Callee {
+	case "fmt.Print", "fmt.Println":
+		a := c.varargAt(s.Args()[0], 0)
+		if a == nil || a.Kind != "convert" || a.Name != "string" {
+			return nil, false, false
+		}
+		return a.Args[0], s.Callee == "fmt.Print", true
+	case "(*os.File).Write", "(*os.File).WriteString":
+		if !c.O.Of(s.Args()[0]).Is("global", "os.Stdout") {
+			return nil, false, false
+		}
+		a := c.O.Of(s.Args()[1])
+		if s.Callee == "(*os.File).WriteString" {
+			if a.Kind != "convert" || a.Name != "string" {
+				return nil, false, false
+			}
+			a = a.Args[0]
+		}
+		return a, true, true
+	}
+	return nil, false, false
+}
+
+func isStdoutPrintCallee(n string) bool {
+	return n == "fmt.Println" || n == "fmt.Print" || n == "(*os.File).Write" || n == "(*os.File).WriteString"
 }
 
 // reachableFromMain computes the module functions reachable from main.main through static calls, closures
